@@ -353,38 +353,50 @@ func verifC01Fields(v *vrt.T, cfg verifC01Cfg, missing bool, seq int64) (models.
 }
 
 // verifC01CheckEvents: every configured topic got exactly one event (none when !emit)
-// since position from, carrying level, time, duration, id.
-func verifC01CheckEvents(v *vrt.T, cfg verifC01Cfg, svc *verifC01AlertSvc, from int, emit bool, level alert.Level, t, dur int64) {
-	want := 0
-	if emit {
-		want = 1
-	}
+// since position from, carrying level, time, duration, id. The first event is compared
+// with the reference, a second topic's event with the first one (same assertion by
+// transitivity, but syntactically trivial for the solver).
+// Returns the duration to look for in forwarded data: the event's (just asserted equal to
+// the reference) when there is one, the reference's otherwise.
+func verifC01CheckEvents(v *vrt.T, cfg verifC01Cfg, svc *verifC01AlertSvc, from int, emit bool, level alert.Level, t, dur int64) int64 {
 	topics := [2]string{verifC01Anon, verifC01Topic}
 	on := [2]bool{cfg.anon, cfg.topic}
 	total := 0
+	var firstEv *alert.Event
 	for i := 0; i < 2; i++ {
 		evs := svc.on(topics[i], from)
 		if !on[i] {
 			v.Assert(len(evs) == 0, "no event on a topic that is not configured")
 			continue
 		}
-		total += want
 		if emit {
+			total++
 			v.Assert(len(evs) == 1, "an event reaches the handlers exactly when documented (missing or duplicated)")
 		} else {
 			v.Assert(len(evs) == 0, "an event reaches the handlers exactly when documented (unexpected event)")
 		}
 		if emit && len(evs) == 1 {
 			ev := evs[0]
-			v.Observe("event", int(ev.State.Level), ev.State.Time.UnixNano(), int64(ev.State.Duration))
-			v.Assert(ev.State.Level == level, "event carries the level")
-			v.Assert(ev.State.Time.UnixNano() == t, "event carries the time of the triggering point")
-			v.Assert(int64(ev.State.Duration) == dur, "event duration is the time since the ID left OK")
+			if firstEv == nil {
+				v.Observe("event", int(ev.State.Level), ev.State.Time.UnixNano(), int64(ev.State.Duration))
+				v.Assert(ev.State.Level == level, "event carries the level")
+				v.Assert(ev.State.Time.UnixNano() == t, "event carries the time of the triggering point")
+				v.Assert(int64(ev.State.Duration) == dur, "event duration is the time since the ID left OK")
+				v.Assert(ev.Data.Recoverable == !cfg.noRec, "recoverable flag")
+				firstEv = &evs[0]
+			} else {
+				v.Assert(ev.State.Level == firstEv.State.Level && ev.State.Time.Equal(firstEv.State.Time) &&
+					ev.State.Duration == firstEv.State.Duration && ev.Data.Recoverable == firstEv.Data.Recoverable,
+					"both topics get the same event")
+			}
 			v.Assert(ev.State.ID == verifC01ID && ev.State.Message == verifC01Message, "event id/message")
-			v.Assert(ev.Data.Recoverable == !cfg.noRec, "recoverable flag")
 		}
 	}
 	v.Assert(len(svc.events)-from == total, "nothing else collected")
+	if firstEv != nil {
+		return int64(firstEv.State.Duration)
+	}
+	return dur
 }
 
 // verifC01CheckAugmented: fields/tags of forwarded data = original ones plus the
@@ -447,7 +459,7 @@ func VerifC01Stream(v *vrt.T) {
 		v.Assert(state.currentLevel() == wantLevel, "level of the point is the documented one")
 		emit, dur := ref.step(wantLevel, t)
 		v.Observe("step", msg != nil, int(state.currentLevel()), len(svc.events)-before)
-		verifC01CheckEvents(v, cfg, svc, before, emit, wantLevel, t, dur)
+		dur = verifC01CheckEvents(v, cfg, svc, before, emit, wantLevel, t, dur)
 		v.Assert((msg != nil) == emit, "point forwarded downstream iff an event was sent")
 		if emit && msg != nil {
 			fp, ok := msg.(edge.PointMessage)
@@ -544,7 +556,7 @@ func VerifC01Batch(v *vrt.T) {
 		v.Assert(state.currentLevel() == wantLevel, "level of the batch is the documented one")
 		emit, dur := ref.step(wantLevel, wantT)
 		v.Observe("step", msg != nil, int(state.currentLevel()), len(svc.events)-before)
-		verifC01CheckEvents(v, cfg, svc, before, emit, wantLevel, wantT, dur)
+		dur = verifC01CheckEvents(v, cfg, svc, before, emit, wantLevel, wantT, dur)
 		v.Assert((msg != nil) == emit, "batch forwarded downstream iff an event was sent")
 		if emit && msg != nil {
 			fb, ok := msg.(edge.BufferedBatchMessage)
